@@ -33,7 +33,14 @@ func (Prop) Rule() string {
 		"after every step Sum(nil) and Sum(prefix) must equal the reference CMAC of the bytes since the last Reset, Sum must leave the complete private state dump unchanged; states merged only on identical private state (tag, x incl. stale bytes, nx, len) + model length; " +
 		"plus every two-way split Write(m[:i]);Write(m[i:]) of every length 0..3*bs+1. E1 other seven: all pairs and triples MAC(m1);MAC(m2);MAC(m1) over 8 lengths on one object. " +
 		"Injectivity: for 7 length classes, the base message and every single-bit flip in its last block (and, except TrCBC, the 10*-extended / 0x80- / 0x00-extended neighbours across the padding boundary) must have pairwise different full-size tags. " +
-		"distinct_nontrivial counts reached CMAC states plus (scheme, cipher, padding, length mod bs class, block count, size class) classes."
+		"distinct_nontrivial counts reached CMAC states plus (scheme, cipher, padding, length mod bs class, block count, size class) classes. " +
+		"Widened dimensions (widen.go; per scheme x cipher x padding unless noted): " +
+		"layout - the message is a window of a larger caller buffer whose capacity reaches to the end of the record: m1||m2||slack MACed in both orders (|m1| = 0..2bs+3, 3 lengths of m2, sizes {bs, bs/2}), message||genuine tag||slack, the same buffer twice; every byte of the buffer (the message included) must be unchanged after MAC, every tag whose input the library had not damaged must equal the reference, consequences (next record's tag wrong, genuine pair no longer verifies, second call differs) are quoted in the report; " +
+		"own - returned tags belong to the caller: overwriting the message after the call, a later call on the same object, a call on a second object (other key) must not change an earlier result; after the caller overwrote all results over their full capacity both objects must repeat the same tags; MAC over an earlier result (6 x 6 lengths, 3 sizes); " +
+		"ctor - key slices carved from one record K||K'||slack, K'||K||slack, K = K' as one slice, exact slices (capacities reaching to the end): the constructor must not change the buffer; the caller overwrites the keys before the first MAC call and after it, the object must keep giving the tags of the construction-time keys; the same slices with the new key value go to a second constructor while the first object keeps working; " +
+		"stream (CMAC) - Sum(in) for len(in) in {0,1,5} x capacity classes {no spare, one byte short of the tag, exact fit, fit+1, ample; nil} with dirty spare bytes after 7 message lengths and sizes {bs, bs/2, 1}: result = in||tag, bytes of in unchanged, private state unchanged, result overwritten over its full capacity then Sum again; Write arguments with dirty spare capacity (unchanged by Write, overwritten afterwards - also in the BFS), Write(nil), Write of the object's own Sum; two objects over one cipher.Block written alternately (7 x 7 lengths x 4 x 4 cut points); " +
+		"values - keys {fixed, all-zero, all-0xFF, zero/ff} x contents {zero, 0xFF, ending in 80, ending in 80 00, zero last block, 0x80 bytes, nil} x lengths 0..2bs+1 x sizes {bs,1}; lengths 255..257 and 8191..8193 (thorough: 2^21-1..2^21+1 for AES and DES) around the byte boundaries of the method-3 length block; CBCR with chosen rotation inputs X (zero, ones, wrap-around bit, byte-boundary bits; 0-2 leading blocks; complete, bs-1 and 1-byte last block); CMAC with one key of each of the four subkey classes (msb(L), msb(K1)) per cipher, one-shot and as two writes; " +
+		"variants - the PKCS#7 and ANSI X9.23 padding constructors with the five selectable-padding schemes: len(tag) = Size() = requested, a reused object with every capacity mode (dirty spare bytes) must return what a fresh object returns for an exact-size copy, consecutive lengths must not collide at full size, caller memory unchanged."
 }
 func (Prop) Assumptions() []string {
 	return []string{
@@ -44,7 +51,10 @@ func (Prop) Assumptions() []string {
 		"TrCBC with a full-size tag collides by definition across the padding boundary (M and M||10*), so the boundary neighbours are not required to differ for TrCBC; equal-length single-bit flips are",
 		"keys are 2-3 fixed values per cipher (for 8-byte blocks chosen deterministically so that both 'CMAC subkey doubling reduces' and 'does not reduce' occur); 'every key' of the statement is not enumerated",
 		"message contents are one fixed non-zero position-based pattern; dispatch tiers: c-default and c-purego (SM4 assembly vs generic); other amd64 SM4 tiers are exercised for single blocks by C02",
-		"MAC() writing padding bytes into the caller's spare capacity beyond len(src), or (method 3 padding with enough spare capacity) moving/overwriting the message bytes themselves, is observed and counted (mac_wrote_into_spare_capacity, mac_modified_message_bytes) but not judged by itself: the property speaks about the tag only; a wrong tag caused by it is judged",
+		"MAC(src) has no destination argument, so every byte of the caller's buffer - the message and whatever lies behind it within cap(src) - must be what it was before the call (keys caller-memory/*): a write there changes the tag of the next record of the same buffer, destroys a tag stored behind the message, or makes a second call on the same buffer return another value, i.e. the tag stops being a function of (key, message bytes the caller supplied). This is judged in the layout and variants families; the E2 capacity modes only count it (mac_wrote_into_spare_capacity, mac_modified_message_bytes) and judge the tag",
+		"Sum(in) writing beyond the appended tag inside the spare capacity of in is counted (cmac_sum_wrote_beyond_the_tag_in_spare_capacity), not judged: that capacity is the destination the caller offered",
+		"PKCS#7 and ANSI X9.23 padding are accepted by the *WithPadding constructors but are not padding methods of GB/T 15852.1: no tag value is demanded for them, only that the tag has the requested length and depends on nothing but key and message (capacity class, object history)",
+		"constructor size arguments outside 1..bs panic by documentation and are not enumerated; the key handed to sm4/aes/des.NewCipher for the four schemes that take a cipher.Block is overwritten after construction as well (the cipher must have expanded or copied it)",
 	}
 }
 
@@ -181,34 +191,45 @@ func newImpl(sc schemeSpec, cs cipherSpec, ki, size int, p macref.Padding, dflt 
 			copy(kb, kb0)
 		}
 	}()
+	pf := padding.NewPaddingFunc(nil)
+	if !dflt {
+		pf = padFunc(p)
+	}
+	return construct(sc, cs, ka, kb, size, pf)
+}
+
+// construct calls the library constructor of a scheme with explicit key slices. pf == nil selects the constructor
+// without a padding argument (= method 2) where the scheme has one.
+func construct(sc schemeSpec, cs cipherSpec, ka, kb []byte, size int, pf padding.NewPaddingFunc) cbcmac.BlockCipherMAC {
+	dflt := pf == nil
 	switch sc.name {
 	case "cbcmac":
 		if dflt {
 			return cbcmac.NewCBCMAC(must(cs.implNew(ka)), size)
 		}
-		return cbcmac.NewCBCMACWithPadding(must(cs.implNew(ka)), size, padFunc(p))
+		return cbcmac.NewCBCMACWithPadding(must(cs.implNew(ka)), size, pf)
 	case "emac":
 		if dflt {
 			return cbcmac.NewEMAC(cs.implNew, ka, kb, size)
 		}
-		return cbcmac.NewEMACWithPadding(cs.implNew, ka, kb, size, padFunc(p))
+		return cbcmac.NewEMACWithPadding(cs.implNew, ka, kb, size, pf)
 	case "retail":
 		if dflt {
 			return cbcmac.NewANSIRetailMAC(cs.implNew, ka, kb, size)
 		}
-		return cbcmac.NewANSIRetailMACWithPadding(cs.implNew, ka, kb, size, padFunc(p))
+		return cbcmac.NewANSIRetailMACWithPadding(cs.implNew, ka, kb, size, pf)
 	case "macdes":
 		if dflt {
 			return cbcmac.NewMACDES(cs.implNew, ka, kb, size)
 		}
-		return cbcmac.NewMACDESWithPadding(cs.implNew, ka, kb, size, padFunc(p))
+		return cbcmac.NewMACDESWithPadding(cs.implNew, ka, kb, size, pf)
 	case "cmac":
 		return cbcmac.NewCMAC(must(cs.implNew(ka)), size)
 	case "lmac":
 		if dflt {
 			return cbcmac.NewLMAC(cs.implNew, ka, size)
 		}
-		return cbcmac.NewLMACWithPadding(cs.implNew, ka, size, padFunc(p))
+		return cbcmac.NewLMACWithPadding(cs.implNew, ka, size, pf)
 	case "trcbc":
 		return cbcmac.NewTRCBCMAC(must(cs.implNew(ka)), size)
 	case "cbcr":
@@ -532,6 +553,9 @@ func cmacMachine(cs cipherSpec, ki, size int) engine.Machine[*cstate] {
 					t.Fail("cmac/write-modifies-input", "Write(%d) changed its argument", c)
 					return false
 				}
+				for i := range buf { // the argument belongs to the caller again (io.Writer: Write must not retain p)
+					buf[i] = 0xDD
+				}
 				s.n += c
 			case op == nW: // Sum: the oracle below does it
 			case op == nW+1:
@@ -845,4 +869,6 @@ func (Prop) Run(c *engine.Ctx) {
 			}
 		}
 	}
+	// input dimensions added after the seeded-change rounds (widen.go)
+	widenRun(c)
 }
